@@ -167,7 +167,7 @@ func runC15(c *core.Ctx) error {
 		// notes that end in a character whose last byte is 0x85 or 0xA0 (white space in some code pages), or in other bytes >= 0x80
 		"42 // \u0432\u0441\u0435\u0445", "\"Roma\" // la citt\u00e0", "{} // {additionalProperties: true} - dane s\u0105", "null // \U0001F605", "[1] // {minItems: 1} - \u00e9\u00a0", "12 // caf\u00e9",
 		// one element, two annotations: the note on the line after the rules, or in an annotation of its own before them
-		"42 // {min: 1}\n// the answer", "\"Tom\" // {minLength: 1}\r\n// a note", "[] // {maxItems: 0}\n  // n", "@t // {optional: false}\n// note",
+		"42 // {min: 1}\n// the answer", "42 // {min: 1}\r// the answer", "\"Tom\" // {minLength: 1}\r// a note\r", "[] // {maxItems: 0}\r  // n", "\"Tom\" // {minLength: 1}\r\n// a note", "[] // {maxItems: 0}\n  // n", "@t // {optional: false}\n// note",
 		"42 /* {min: 1} - the note */ // {max: 50}", "42 /* the note */ // {min: 1, max: 50}", "{ // {additionalProperties: true}\n// n\n}", "{ // note\n}", "@t // {optional: false}", "  12  ", "\n\n12\n\n"}
 	ss = append(ss, roots...)
 	for _, it := range corpus.Harvest(600, "notations/jschema") {
